@@ -34,11 +34,11 @@ Lemma twin_filter_evaluate_eq {V} name tok (call : fout V) :
   observe (filter_evaluate_async name tok call) = observe (filter_evaluate name tok call).
 Proof. destruct call as [v|[m|m t|c t|k]]; reflexivity. Qed.
 
-(** The messages do differ: the observable must not include them. *)
-Example filter_messages_differ :
-  filter_evaluate_async (V:=N) [97]%N 5%Z (FRaise (FTypeError [120]%N))
-  <> filter_evaluate [97]%N 5%Z (FRaise (FTypeError [120]%N)).
-Proof. discriminate. Qed.
+(** Since /repo f444606 the twins also carry the same message: they are equal
+    outright, not only under [observe]. *)
+Lemma twin_filter_evaluate_same {V} name tok (call : fout V) :
+  filter_evaluate_async name tok call = filter_evaluate name tok call.
+Proof. destruct call as [v|[m|m t|c t|k]]; reflexivity. Qed.
 
 (** * 5. LoopExpression.evaluate *)
 Lemma twin_loop_offset_eq ae o : loop_offset_async ae o = loop_offset o.
